@@ -1012,11 +1012,11 @@ def _k2_parts(tier):
                   for v in range(3)]
     else:
         parts = []
-        for n in range(0, 7):
+        for n in range(0, 6):
             parts += sym(n, [0, 10, 15, 16, 24] if n < 5 else [15], 4)
         parts += [{"name_len": None, "mime_lens": [ml], "n_att": 1, "behaviours": 6} for ml in key_lens + [1, 30]]
-        parts += [{"name_len": None, "mime_lens": [15, 24], "n_att": 2, "behaviours": [6, 4], "vocab": 3, "first_vocab": v}
-                  for v in range(3)]
+        parts += [{"name_len": None, "mime_lens": [ml], "n_att": 2, "behaviours": [6, 4], "vocab": 3, "first_vocab": v}
+                  for v in range(3) for ml in (15, 24)]
         parts += [{"name_len": 4, "mime_lens": [15], "n_att": 2, "behaviours": [4, 2], "vocab": 3, "last_dot": d}
                   for d in range(-1, 4)]
     return parts
@@ -1913,7 +1913,7 @@ _K2 = Kernel(
                  "guess for the name, else the declared MIME type through the MIME table; the table itself is read from "
                  "the live module"],
     outside=["what the real extractors do with the bytes (C02..C14)", "names longer than the bound except the vocabulary"],
-    timeout={"quick": 110, "thorough": 1200}, max_depth=600)
+    timeout={"quick": 110, "thorough": 2400}, max_depth=600)
 _K2.replayer = _k2_public_replay
 
 KERNELS = [
